@@ -55,6 +55,9 @@ def partitions(nodes, n_layers: int, rnd: random.Random, limit: int):
 
 
 LAYER_NAMES = ["L0", "L1", "L2", "L3"]
+# layer names that contain one another as text (used with the adversarial module naming): a layer is identified by
+# its whole name
+LAYER_NAMES_ADV = ["api", "api_internal", "ap", "gapi"]
 
 
 def instances(tier: str) -> list[dict]:
@@ -67,10 +70,11 @@ def instances(tier: str) -> list[dict]:
     ]
     for tree, naming, nl, limit in plan:
         nodes = concrete(tree, naming)
+        LN = LAYER_NAMES_ADV if naming == "adv" else LAYER_NAMES
         for part in partitions(nodes, nl, rnd, limit):
             modes_list = [("names",) * nl, ("regex",) * nl, tuple("regex" if i % 2 else "names" for i in range(nl)), tuple("names" if i % 2 else "regex" for i in range(nl))]
             for modes in modes_list if tier == "thorough" else modes_list[:3]:
-                layers = tuple((LAYER_NAMES[i],) + _layer_defs(part[i], modes[i], i) for i in range(nl))
+                layers = tuple((LN[i],) + _layer_defs(part[i], modes[i], i) for i in range(nl))
                 for si in range(nl):
                     others = [j for j in range(nl) if j != si]
                     objsets = [(j,) for j in others] + ([tuple(others[:2])] if len(others) >= 2 else [])
@@ -79,9 +83,9 @@ def instances(tier: str) -> list[dict]:
                     for objs in objsets:
                         for verb, direction, exc in SHAPES:
                             d = "access" if direction == "import" else "accessed"
-                            out.append({"tree": tree, "naming": naming, "spec": LayerSpec(layers, verb, d, exc, LAYER_NAMES[si], tuple(LAYER_NAMES[j] for j in objs)).as_json()})
+                            out.append({"tree": tree, "naming": naming, "spec": LayerSpec(layers, verb, d, exc, LN[si], tuple(LN[j] for j in objs)).as_json()})
                     for d in ("access", "accessed"):
-                        out.append({"tree": tree, "naming": naming, "spec": LayerSpec(layers, "should_not", d, False, LAYER_NAMES[si], (), True).as_json()})
+                        out.append({"tree": tree, "naming": naming, "spec": LayerSpec(layers, "should_not", d, False, LN[si], (), True).as_json()})
     if tier == "quick":
         # stratified sample: every (shape, any-layer alias, subject layer listing one / several modules,
         # definition mode of the subject layer) class is represented
